@@ -74,6 +74,11 @@ def _single_defs(func):
             for n in ast.walk(t):
                 if isinstance(n, ast.Name):
                     defs.setdefault(n.id, []).append(st)
+    for n in ast.walk(func):            # `(name := value)` inside a test or expression binds the local just like `name = value`
+        if isinstance(n, ast.NamedExpr) and isinstance(n.target, ast.Name):
+            syn = ast.Assign(targets=[ast.Name(id=n.target.id, ctx=ast.Store())], value=n.value)
+            ast.copy_location(syn, n)
+            defs.setdefault(n.target.id, []).append(syn)
     return defs
 
 
@@ -852,6 +857,8 @@ MUTANTS = [
     Mutant("state-dict-copied-into-instance", JELLY, "    def setStateFor(self, unjellier, state):\n        self.__dict__ = state\n", "    def setStateFor(self, unjellier, state):\n        self.__dict__.update(state)\n",
            expect_rule="references/state-dict-identity"),
     Mutant("new-instance-state-dict-copied", JELLY, "            instance.__dict__ = state or {}\n", "            instance.__dict__ = dict(state or {})\n", expect_rule="references/state-dict-identity"),
+    Mutant("walrus-bound-class-from-the-wire", JELLY, "        regClass = unjellyableRegistry.get(jelTypeBytes)\n        if regClass is not None:\n", "        if (regClass := unjellyableRegistry.get(jelTypeBytes) or obj[1]) is not None:\n",
+           expect_rule="instantiate/class-provenance"),
     Mutant("module-policy-prefix-match", JELLY, "        return moduleName in self.allowedModules\n", "        return any(moduleName.startswith(m) for m in self.allowedModules)\n",
            expect_rule="policy/module-exact-membership"),
     Mutant("type-policy-allows-code-atoms-by-default", JELLY, '            b"frozenset": 1,\n        }\n', '            b"frozenset": 1,\n            b"function": 1,\n        }\n', expect_rule="policy/defaults-empty"),
@@ -885,6 +892,7 @@ SILENT = [
     Silent("policy-defaults-from-module-constants", JELLY, "        self.allowedModules = {}\n        self.allowedClasses = {}\n", "        self.allowedModules = dict.fromkeys(_NOTHING_YET, 1)\n        self.allowedClasses = {}\n",
            more=[(JELLY, "class SecurityOptions:\n", "_NOTHING_YET = ()\n\n\nclass SecurityOptions:\n")]),
     Silent("state-setter-renamed-parameter", JELLY, "    def setStateFor(self, unjellier, state):\n        self.__dict__ = state\n", "    def setStateFor(self, unjellier, jellyState):\n        self.__dict__ = jellyState\n"),
+    Silent("registry-lookup-bound-in-the-test", JELLY, "        regClass = unjellyableRegistry.get(jelTypeBytes)\n        if regClass is not None:\n", "        if (regClass := unjellyableRegistry.get(jelTypeBytes)) is not None:\n"),
     Silent("class-check-combined", JELLY, '            clz = namedObject(jelTypeText)\n            if not self.taster.isClassAllowed(clz):\n                raise InsecureJelly("Class %s not allowed." % jelTypeText)\n            return self._genericUnjelly(clz, obj[1])\n',
            '            clz = namedObject(jelTypeText)\n            if self.taster.isClassAllowed(clz):\n                return self._genericUnjelly(clz, obj[1])\n            raise InsecureJelly("Class %s not allowed." % jelTypeText)\n'),
 ]
